@@ -43,6 +43,9 @@ type Scenario struct {
 	// history
 	Warmup      string // "", "plain", "encrypted": a complete valid login on another connection first
 	ReuseConfig bool   // reuse the warm-up's LoginConfig object
+	// OldPassword: the warm-up login used this account password; the caller then sets the config's
+	// password to Password and logs in again with the config exactly as the library left it
+	OldPassword string
 }
 
 // Result of a login attempt.
@@ -130,6 +133,10 @@ func packets(r Reply) [][]byte {
 	case 2:
 		if len(body) > 1 {
 			cuts = []int{len(body) / 2}
+		}
+	default:
+		if r.Pack >= 100 && r.Pack-100 < len(body) { // 100+k: one cut at offset k
+			cuts = []int{r.Pack - 100}
 		}
 	}
 	pk := hx.Packetise(4, 0, body, cuts)
@@ -251,6 +258,9 @@ func Run(sc Scenario) Result {
 			w := sc
 			w.Encrypt = sc.Warmup == "encrypted"
 			w.Replies = ValidReplies(w.Encrypt, 1024, []byte("0123456789abcdef"))
+			if sc.OldPassword != "" {
+				w.Password = sc.OldPassword
+			}
 			wres, conf := one(w, nil)
 			if wres.Failure != "" || wres.Err != nil {
 				res.Failure = fmt.Sprintf("warm-up login failed: %v %s", wres.Err, wres.Failure)
@@ -258,10 +268,14 @@ func Run(sc Scenario) Result {
 			}
 			if sc.ReuseConfig {
 				shared = conf
-				// Login prepends the account password to the remote servers of the config it is given
-				shared.RemoteServers = nil
-				for _, r := range sc.Remotes {
-					shared.RemoteServers = append(shared.RemoteServers, tds.LoginConfigRemoteServer{Name: r[0], Password: r[1]})
+				if sc.OldPassword != "" {
+					shared.DSN.Password = sc.Password // ... and nothing else is touched
+				} else {
+					// Login prepends the account password to the remote servers of the config it is given
+					shared.RemoteServers = nil
+					for _, r := range sc.Remotes {
+						shared.RemoteServers = append(shared.RemoteServers, tds.LoginConfigRemoteServer{Name: r[0], Password: r[1]})
+					}
 				}
 			}
 			vrt.ResetRand()
